@@ -44,7 +44,8 @@ def one(ctx: Ctx, cs, n_pairs=80, long=False):
     from ..monitors import pitchshadow
     if long:
         # a score of more than 1000 lines (one spine): the size real scores have
-        doc, pname = make_doc(cs, 'kern_core', allow_nodur=False, p_sig=0.9, **LONG)
+        # (natural notes and intervals that keep every result spellable, so that a refusal cannot be blamed on an unspellable pitch)
+        doc, pname = make_doc(cs, 'kern_core', allow_nodur=False, p_sig=0.9, allow_acc=False, **LONG)
         ctx.mon('long_documents')
     else:
         doc, pname = make_doc(cs, None, allow_nodur=False, p_sig=0.9)
@@ -71,7 +72,9 @@ def one(ctx: Ctx, cs, n_pairs=80, long=False):
     bystander_snap = kpx.snapshot(bystander) if bystander is not None else None
     names = list(I.INTERVALS)
     pairs = [(n, up) for n in names for up in (True, False)]
-    if n_pairs < len(pairs):
+    if long:
+        pairs = [('octave', True), ('P5', True), ('M2', False), ('P4', False)]
+    elif n_pairs < len(pairs):
         pairs = rng.sample(pairs, n_pairs)
     has_acc = any(c.kind == 'note' and c.obj.acc for r in ag for c in r)
     has_chord = any(c.kind == 'chord' for r in ag for c in r)
